@@ -394,6 +394,30 @@ def r18_deref_self(toks, log):
     return out
 
 
+def r19_float_neg(toks, spec, log):
+    """R19 (entry option `fneg=f32:x[:y]`): unary minus on the named float locals, `- x` -> `bn_f32_neg ( x )`.
+    Verus: "The verifier does not yet support the following Rust feature: unary op negation of floating point", and
+    vstd's `Neg for f32` is uninterpreted.  `bn_f32_neg`/`bn_f64_neg` are trusted wrappers (raw entry
+    `floatcast_fprims`) whose body *is* `-x` and whose contract is "the sign bit is flipped"."""
+    parts = spec.split(':')
+    ty, names = parts[0], set(parts[1:])
+    assert ty in ('f32', 'f64'), spec
+    out = []
+    i = 0
+    n = len(toks)
+    while i < n:
+        t = toks[i]
+        if t == '-' and i + 1 < n and toks[i + 1] in names and (i == 0 or toks[i - 1] in ('{', '(', ',', '=', ';', 'return', 'else', '=>')) \
+                and (i + 2 >= n or toks[i + 2] not in ('.', '(', '[', '::')):
+            out += ['bn_' + ty + '_neg', '(', toks[i + 1], ')']
+            log['R19'] = log.get('R19', 0) + 1
+            i += 2
+            continue
+        out.append(t)
+        i += 1
+    return out
+
+
 def r15_rng(sig, body, impl, assoc_types, log):
     """R15 (unit `random` only, entry option `r15`): the methods of
     `impl<..> UniformSampler for UniformInt<T>` are emitted as inherent methods of `UniformInt<T>`,
